@@ -1,7 +1,26 @@
 (** Runner for the C11 correspondence: evaluates the generated (translated) to_xml /
     from_xml of a simple-type class on a python value. *)
 From V.lib Require Import Prelude PyFloat PyVal Wire PyValWire.
+From V.model Require Import SimpleTypeLib.
 From V.gen Require Import GenC11.
+
+Definition show_state (c : option str) : str :=
+  match c with None => [45%N] | Some s => [61%N] ++ show_str s end.     (* "-" absent, "=<text>" *)
+
+(** a: attribute history.  cls kind(r|o) default initial v1 v2 ... -> one field per step:
+    outcome (ok / err:X) and the attribute state after the step *)
+Fixpoint attr_history (required : bool) (to_xml : pyval -> res pyval) (dflt : pyval)
+                      (cur : option str) (vals : list str) : list str :=
+  match vals with
+  | [] => []
+  | w :: rest =>
+      match parse_pyval w with
+      | None => [w_badcase]
+      | Some v =>
+          let '(c, r) := attr_step required to_xml dflt cur v in
+          (show_res (fun _ => []) r ++ [32%N] ++ show_state c) :: attr_history required to_xml dflt c rest
+      end
+  end.
 
 Definition run_c11 (args : list str) : str :=
   match args with
@@ -13,6 +32,15 @@ Definition run_c11 (args : list str) : str :=
         end
       else if str_eqb op [114%N] then       (* r: val is the attribute text *)
         show_res show_pyval (dispatch_from_xml cls (PStr val))
+      else w_badcase
+  | op :: cls :: kind :: dflt :: init :: vals =>
+      if str_eqb op [97%N] then             (* a *)
+        match parse_pyval dflt with
+        | Some d =>
+            fields (attr_history (str_eqb kind [114%N]) (dispatch_to_xml cls) d
+                      (match init with [45%N] => None | _ => Some (tl init) end) vals)
+        | None => w_badcase
+        end
       else w_badcase
   | _ => w_badcase
   end.
